@@ -6,7 +6,8 @@ API (see notes/Sem.md):
     oracle_eval(ctx, programs, mode="fast", jobs=14)   # -> list of outcomes, one per program
         mode "fast"  : SemFast.fast_answers (pruned, cone-restricted, one model per world)
         mode "spec"  : Sem.answers          (the specification itself; exponential in ALL ground AD instances)
-        mode "class" : Sem.gclassify        (C02 class)
+        mode "class" : SemFast.fast_gclassify (C02 class; graph test on the full ground program, worlds on the pruned cone)
+        mode "classspec" : Sem.gclassify    (the specification of the class; enumerates every ground AD instance)
         mode "nch"   : number of independent choices (fast, spec)
     outcome:
         ("ok", {query_str: Fraction})       every ground instance of every query (probability 0 included)
@@ -27,7 +28,7 @@ Require Extraction.
 Require ExtrOcamlBasic.
 Extraction Language OCaml.
 Set Extraction Output Directory ".".
-Extraction "oracle.ml" wf_program fast_answers answers gclassify ground fast_nchoices spec_nchoices.
+Extraction "oracle.ml" wf_program fast_answers answers gclassify fast_gclassify ground fast_nchoices spec_nchoices.
 """
 
 DRIVER_ML = r"""
@@ -120,7 +121,10 @@ let handle line =
     else begin match mode with
       | "fast" -> (match fast_answers p with Some l -> show_answers l | None -> "err OutOfFuel")
       | "spec" -> show_answers (answers p)
-      | "class" -> (match gclassify (ground p) with
+      | "class" -> (match fast_gclassify p with
+                    | MustAnswer -> "class must_answer" | MustReject -> "class must_reject"
+                    | Either -> "class either" | ClassFuel -> "class fuel")
+      | "classspec" -> (match gclassify (ground p) with
                     | MustAnswer -> "class must_answer" | MustReject -> "class must_reject"
                     | Either -> "class either" | ClassFuel -> "class fuel")
       | "nch" -> (match fast_nchoices p with
